@@ -227,18 +227,8 @@ fn gen_pattern(rng: &mut Rng, depth: usize, ngroups: &mut usize) -> String {
     }
 }
 
-/// Under --crlf the SEARCHER judges a line with its `\r` still attached (it strips only the `\n`), so `\B` holds
-/// between that `\r` and the end and the line is reported although its content has no match. That is C01's recorded
-/// finding (class `crlf-cr-unmatchable` there: which lines are reported), not the printer's: the printer then finds no
-/// match in the content and prints the line as it is. This property's streams take the set of reported lines as
-/// given, so `\B` is generated only without --crlf.
-fn no_not_word_boundary_under_crlf(pat: String, crlf: bool) -> String {
-    if crlf {
-        pat.replace("\\B", "\\b")
-    } else {
-        pat
-    }
-}
+// (Until 4165f41 `\B` was generated only without --crlf: the fast searcher judged a line with its `\r` still in view and
+// reported lines whose content has no match — C01's F1, repaired there. The restriction is lifted.)
 
 fn gen_input(rng: &mut Rng, crlf: bool) -> Vec<u8> {
     let mut input = vec![];
@@ -262,7 +252,6 @@ fn l2_case(rng: &mut Rng, malformed: bool) -> String {
     let pat = gen_pattern(rng, 3, &mut ng);
     let tmpl = gen_template(rng, malformed);
     let crlf = rng.chance(1, 4);
-    let pat = no_not_word_boundary_under_crlf(pat, crlf);
     let input = gen_input(rng, crlf);
     let only = rng.chance(1, 4);
     // per-match records (--vimgrep) and prelude fields (-n, --column)
@@ -1236,7 +1225,6 @@ fn l2c_case(rng: &mut Rng, malformed: bool) -> String {
     let pat = gen_pattern(rng, 3, &mut ng);
     let tmpl = gen_template(rng, malformed);
     let crlf = rng.chance(1, 4);
-    let pat = no_not_word_boundary_under_crlf(pat, crlf);
     // more lines than l2, so that context windows, gaps between groups and adjacency all occur
     let mut input = vec![];
     for _ in 0..rng.range(1, 3) {
